@@ -35,6 +35,7 @@ class Scn:
         self.sign_over = None             # 'ad-only' | 'cdj-raw'
         self.post = None                  # function(assertion) mutating after signing
         self.ext = None
+        self.at_cred_id = None            # credential id inside an attested-credential-data block of an ASSERTION (None = the credential's own)
         self.user_handle = None
         self.faults = []
 
@@ -43,7 +44,7 @@ class Scn:
         signer = authsim.Cred(self.signer_kind, slot=self.signer_slot) if self.signer_kind else cred
         cdj = authsim.client_data(self.cd_type, self.sign_challenge if self.sign_challenge is not None else self.challenge,
                                   self.origin, extra=self.cd_extra, token_binding=self.token_binding)
-        ad = authsim.authdata(self.sign_rp_id or self.rp_id, self.flags, self.count, aaguid=bytes(16), cred_id=self.cred_id,
+        ad = authsim.authdata(self.sign_rp_id or self.rp_id, self.flags, self.count, aaguid=bytes(16), cred_id=self.at_cred_id if self.at_cred_id is not None else self.cred_id,
                               cose_bytes=cred.cose_bytes, ext=self.ext)
         if self.sign_over == "ad-only":
             msg = ad
@@ -89,7 +90,22 @@ def f_declared_alg_foreign(s, r):
 def _keep_expected(s):
     if s.exp_origin is None:
         s.exp_origin = s.origin
-def f_origin_other(s, r): _keep_expected(s); s.origin = r.choice(["https://evil.example", "https://example.com.evil.test", "http://example.com."])
+def _l3_decoys(s, r):
+    # Level-3 client data members naming the EXPECTED origin next to a wrong `origin`: they are not the origin
+    good = s.exp_origin if isinstance(s.exp_origin, str) else (s.exp_origin[0] if s.exp_origin else s.origin)
+    if r.random() < 0.6:
+        s.cd_extra = r.choice([{"crossOrigin": True, "topOrigin": good}, {"crossOrigin": True, "topOrigin": good, "other": 1}, {"topOrigin": good}, {"crossOrigin": False, "topOrigin": good},
+                               {"crossOrigin": True, "top_origin": good}, {"crossOrigin": True, "origins": [good]}])
+def f_origin_other(s, r):
+    _keep_expected(s); s.origin = r.choice(["https://evil.example", "https://example.com.evil.test", "http://example.com."]); _l3_decoys(s, r)
+ORIGIN_ALIASES = [("https://bücher.example", "https://xn--bcher-kva.example"), ("https://xn--bcher-kva.example", "https://bücher.example"), ("https://Example.com", "https://example.com"),
+                  ("https://example.com", "https://example.com/"), ("https://example.com:443", "https://example.com"), ("https://example.com", "https://example.com:443"),
+                  ("https://straße.example", "https://strasse.example"), ("https://example.com", "https://example.com "), ("https://example.com", "https://EXAMPLE.com")]
+def f_origin_alias(s, r):
+    # (origin the RP expects - as a bare string or as a list -, origin in the client data): different strings, however similar
+    exp, got = r.choice(ORIGIN_ALIASES)
+    s.exp_origin = exp if r.random() < 0.6 else [exp, "https://other.example"]
+    s.origin = got
 def f_origin_substring(s, r):
     # client origin is a proper substring / superstring of the expected one
     s.exp_origin = "https://example.com:8443"
@@ -106,7 +122,13 @@ def f_rp_other(s, r):
     # Unicode normalisation makes them "the same RP ID"
     s.rp_id, s.sign_rp_id = r.choice(RP_ALIASES)
 def f_up_clear(s, r): s.flags &= ~0x01
-def f_uv_clear(s, r): s.require_uv = True; s.flags &= ~0x04
+def f_uv_clear(s, r):
+    s.require_uv = True; s.flags &= ~0x04
+    if r.random() < 0.7:
+        # extension outputs that TALK about user verification do not set the UV flag
+        import cbor2
+        s.flags |= 0x80
+        s.ext = cbor2.dumps(r.choice([{"uvm": [[2, 4, 2]]}, {"uvm": [[2, 4, 2], [4, 4, 2]]}, {"uvm": [[0x2, 0xA, 0x4]], "credProtect": 3}, {"credProtect": 3}, {"userVerified": True}, {"uv": True}]))
 def f_id_mismatch(s, r):
     good = authsim.b64u(s.cred_id)
     s.id_text = r.choice([good + "=", good + "A", good[:-1], good.lower() if good.lower() != good else good + "x", authsim.b64u(s.cred_id + b"\x00")])
@@ -151,7 +173,7 @@ FAULTS = {
     "signed-over-raw-cdj": f_sign_cdj_raw, "counter-equal": f_counter_equal, "counter-lower": f_counter_lower,
     "counter-zero-vs-stored": f_counter_zero_vs_stored, "bs-without-be": f_bs_without_be, "scheme-mismatch": f_scheme_mismatch,
     "cdj-edited-after-signing": f_cdj_edited, "authdata-trailing-byte": f_ad_trailing, "signature-truncated": f_sig_trunc,
-    "credential-type": f_cred_type, "challenge-base64url-alias": f_challenge_b64_alias, "declared-algorithm-of-another-family": f_declared_alg_foreign,
+    "credential-type": f_cred_type, "challenge-base64url-alias": f_challenge_b64_alias, "origin-alias-spelling": f_origin_alias, "declared-algorithm-of-another-family": f_declared_alg_foreign,
 }
 # faults that can only be expressed in some input forms
 RECORD_ONLY = {"credential-type"}
@@ -176,6 +198,12 @@ def base_variation(s, rng):
         s.flags |= 0x40
     if rng.random() < 0.3:
         s.flags |= 0x80
+        if rng.random() < 0.7:
+            import cbor2
+            from harness import cborgen
+            s.ext = cbor2.dumps(cborgen.known_ext(rng))
+    if s.flags & 0x40 and rng.random() < 0.5:
+        s.at_cred_id = rng.choice([b"another-credential", b"", rng.randbytes(16)])      # an attested block in an assertion is not compared with anything
     s.require_uv = bool(s.flags & 0x04) and rng.random() < 0.5
     s.count, s.stored = rng.choice([(0, 0), (1, 0), (10, 9), (2 ** 32 - 1, 2 ** 32 - 2), (2 ** 31, 2 ** 31 - 1), (rng.randrange(1, 2 ** 32), 0)])
     s.cred_id = rng.randbytes(rng.choice([1, 16, 32, 64, 255, 1023]))
